@@ -1,12 +1,53 @@
 import TabulaModel.Model.A1
 namespace Tabula.A1
 
-theorem colAcc_append (s t : Str) (a : Nat) :
-    colAcc (s ++ t) a = (colAcc s a).bind (colAcc t) := by
+/-- the column number the letters denote in bijective base 26, without any bound (`none`: a
+character that is no letter).  This is the loop of `ColumnToIndex` before the fix that rejects
+overflowing column letters, kept as the specification the bounded loop `colAcc` is compared
+with (`colAcc_eq_colVal`). -/
+def colVal : Str → Nat → Option Nat
+  | [], acc => some acc
+  | c :: cs, acc =>
+    let u := upper c
+    if 65 ≤ u && u ≤ 90 then colVal cs (acc * 26 + (u - 65) + 1) else none
+
+/-- the accumulated number only grows -/
+theorem colVal_ge (s : Str) (a r : Nat) (h : colVal s a = some r) : a ≤ r := by
   induction s generalizing a with
-  | nil => simp [colAcc]
+  | nil => simp [colVal] at h; omega
   | cons c cs ih =>
-    simp only [List.cons_append, colAcc]
+    simp only [colVal] at h
+    split at h
+    · have := ih _ h; omega
+    · cases h
+
+/-- **the bounded loop is the unbounded number cut at `maxColumnNumber`**: the test after every
+letter rejects exactly the strings whose number exceeds the bound (the number only grows) -/
+theorem colAcc_eq_colVal (s : Str) (a : Nat) (ha : a ≤ maxColumnNumber) :
+    colAcc s a = (colVal s a).bind fun r => if r ≤ maxColumnNumber then some r else none := by
+  induction s generalizing a with
+  | nil => simp [colAcc, colVal, ha]
+  | cons c cs ih =>
+    simp only [colAcc, colVal]
+    split
+    · split
+      · rename_i hgt
+        cases hv : colVal cs (a * 26 + (upper c - 65) + 1) with
+        | none => rfl
+        | some r =>
+          have := colVal_ge cs _ r hv
+          have : ¬ r ≤ maxColumnNumber := by omega
+          simp [this]
+      · rename_i hle
+        exact ih _ (by omega)
+    · rfl
+
+theorem colVal_append (s t : Str) (a : Nat) :
+    colVal (s ++ t) a = (colVal s a).bind (colVal t) := by
+  induction s generalizing a with
+  | nil => simp [colVal]
+  | cons c cs ih =>
+    simp only [List.cons_append, colVal]
     split
     · exact ih _
     · rfl
@@ -26,15 +67,15 @@ theorem upper_upperLetter (c : Nat) (h1 : 65 ≤ c) (h2 : c ≤ 90) : upper c = 
   have : ¬ (97 ≤ c) := by omega
   simp [this]
 
-theorem colAcc_toColAux (n : Nat) : colAcc (toColAux n []) 0 = some n := by
+theorem colVal_toColAux (n : Nat) : colVal (toColAux n []) 0 = some n := by
   induction n using Nat.strongRecOn with
   | _ n ih =>
     cases n with
-    | zero => simp [toColAux, colAcc]
+    | zero => simp [toColAux, colVal]
     | succ m =>
-      rw [toColAux, toColAux_acc, colAcc_append, ih (m / 26) (by omega)]
+      rw [toColAux, toColAux_acc, colVal_append, ih (m / 26) (by omega)]
       have hu : upper (65 + m % 26) = 65 + m % 26 := upper_upperLetter _ (by omega) (by omega)
-      simp only [Option.bind_some, colAcc, hu]
+      simp only [Option.bind_some, colVal, hu]
       have h1 : (65 ≤ 65 + m % 26) := by omega
       have h2 : (65 + m % 26 ≤ 90) := by omega
       simp only [h1, h2, decide_true, Bool.and_self, if_true]
@@ -44,24 +85,24 @@ theorem colAcc_toColAux (n : Nat) : colAcc (toColAux n []) 0 = some n := by
 /-- all characters are upper-case ASCII letters -/
 def IsUpperCol (s : Str) : Prop := ∀ c ∈ s, 65 ≤ c ∧ c ≤ 90
 
-theorem colAcc_upper_some (s : Str) (hs : IsUpperCol s) (a : Nat) :
-    ∃ r, colAcc s a = some r ∧ (s ≠ [] → 1 ≤ r) ∧ toColAux r [] = toColAux a [] ++ s := by
+theorem colVal_upper_some (s : Str) (hs : IsUpperCol s) (a : Nat) :
+    ∃ r, colVal s a = some r ∧ (s ≠ [] → 1 ≤ r) ∧ toColAux r [] = toColAux a [] ++ s := by
   induction s generalizing a with
-  | nil => exact ⟨a, by simp [colAcc]⟩
+  | nil => exact ⟨a, by simp [colVal]⟩
   | cons c cs ih =>
     have hc := hs c (by simp)
     have hu : upper c = c := upper_upperLetter c hc.1 hc.2
     have hcs : IsUpperCol cs := fun d hd => hs d (by simp [hd])
     obtain ⟨r, hr, hpos, hcol⟩ := ih hcs (a * 26 + (c - 65) + 1)
     refine ⟨r, ?_, ?_, ?_⟩
-    · simp only [colAcc, hu]
+    · simp only [colVal, hu]
       have h1 : (65 ≤ c) := hc.1
       have h2 : (c ≤ 90) := hc.2
       simp only [h1, h2, decide_true, Bool.and_self, if_true]
       exact hr
     · intro _
       cases cs with
-      | nil => simp [colAcc] at hr; omega
+      | nil => simp [colVal] at hr; omega
       | cons d ds => exact hpos (by simp)
     · rw [hcol]
       have : a * 26 + (c - 65) + 1 = (a * 26 + (c - 65)) + 1 := rfl
@@ -70,6 +111,67 @@ theorem colAcc_upper_some (s : Str) (hs : IsUpperCol s) (a : Nat) :
       have e2 : 65 + (a * 26 + (c - 65)) % 26 = c := by omega
       rw [e1, e2]
       simp
+
+/-- the number an upper-case letter string denotes in bijective base 26 (A=1 … Z=26, AA=27 …):
+`ColumnToIndex` answers this number minus one, if it is at most `maxColumnNumber` -/
+def colNumber (s : Str) : Nat := s.foldl (fun a c => a * 26 + (c - 64)) 0
+
+theorem colVal_upper_eq (s : Str) (hs : IsUpperCol s) (a : Nat) :
+    colVal s a = some (s.foldl (fun a c => a * 26 + (c - 64)) a) := by
+  induction s generalizing a with
+  | nil => rfl
+  | cons c cs ih =>
+    have hc := hs c (by simp)
+    have hu : upper c = c := upper_upperLetter c hc.1 hc.2
+    have hcs : IsUpperCol cs := fun d hd => hs d (by simp [hd])
+    simp only [colVal, hu, List.foldl_cons]
+    have h1 : (65 ≤ c) := hc.1
+    have h2 : (c ≤ 90) := hc.2
+    simp only [h1, h2, decide_true, Bool.and_self, if_true]
+    rw [ih hcs]
+    have : a * 26 + (c - 65) + 1 = a * 26 + (c - 64) := by omega
+    rw [this]
+
+/-- `ColumnToIndex`'s loop on the letters `IndexToColumn` prints for the number `n` -/
+theorem colAcc_toColAux (n : Nat) :
+    colAcc (toColAux n []) 0 = if n ≤ maxColumnNumber then some n else none := by
+  rw [colAcc_eq_colVal _ 0 (by decide), colVal_toColAux]; rfl
+
+/-- `ColumnToIndex`'s loop on an upper-case letter string: its number, unless beyond the bound;
+and `IndexToColumn`'s loop prints the string back from the number -/
+theorem colAcc_upper (s : Str) (hs : IsUpperCol s) :
+    colAcc s 0 = (if colNumber s ≤ maxColumnNumber then some (colNumber s) else none) ∧
+      (s ≠ [] → 1 ≤ colNumber s) ∧ toColAux (colNumber s) [] = s := by
+  obtain ⟨r, hr, hpos, hcol⟩ := colVal_upper_some s hs 0
+  have hr' := colVal_upper_eq s hs 0
+  rw [hr] at hr'
+  have e : r = colNumber s := by simpa [colNumber] using hr'
+  subst e
+  refine ⟨?_, hpos, ?_⟩
+  · rw [colAcc_eq_colVal _ 0 (by decide), hr]; rfl
+  · rw [hcol]; simp [toColAux]
+
+theorem foldl_col_bound (s : Str) (hs : IsUpperCol s) (a : Nat) :
+    s.foldl (fun a c => a * 26 + (c - 64)) a + 2 ≤ (a + 2) * 26 ^ s.length := by
+  induction s generalizing a with
+  | nil => simp
+  | cons c cs ih =>
+    have hc := hs c (by simp)
+    have hcs : IsUpperCol cs := fun d hd => hs d (by simp [hd])
+    simp only [List.foldl_cons, List.length_cons]
+    refine Nat.le_trans (ih hcs _) ?_
+    have h1 : a * 26 + (c - 64) + 2 ≤ (a + 2) * 26 := by omega
+    calc (a * 26 + (c - 64) + 2) * 26 ^ cs.length ≤ ((a + 2) * 26) * 26 ^ cs.length := Nat.mul_le_mul_right _ h1
+      _ = (a + 2) * 26 ^ (cs.length + 1) := by rw [Nat.pow_succ, Nat.mul_assoc, Nat.mul_comm 26]
+
+/-- every column of up to eight letters (a worksheet ends at XFD) is within the bound -/
+theorem colNumber_short (s : Str) (hs : IsUpperCol s) (hlen : s.length ≤ 8) :
+    colNumber s ≤ maxColumnNumber := by
+  have h := foldl_col_bound s hs 0
+  have hp : 26 ^ s.length ≤ 26 ^ 8 := Nat.pow_le_pow_right (by omega) hlen
+  have h8 : (26 : Nat) ^ 8 = 208827064576 := by decide
+  unfold colNumber maxColumnNumber
+  omega
 
 end Tabula.A1
 
